@@ -53,6 +53,8 @@ def inputs_for(module: str, opts: Dict[str, Any], rng: random.Random, which: int
     tgt = torch.randint(0, 5, (6,), generator=g)
     tgt[1] = opts["ignore_index"] if opts["ignore_index"] >= 0 else tgt[1]
     tgt[4] = opts["ignore_index"]
+    if opts["ignore_index"] >= 0:
+        tgt[0] = (opts["ignore_index"] + 1) % 5     # at least one target counts: with ALL targets ignored the mean loss is NaN (0/0), as in PyTorch
     return {"input": torch.randn(6, 5, generator=g), "target": tgt}
 
 
@@ -103,14 +105,24 @@ def run_both(rec: Dict[str, Any], mod: nn.Module, opts: Dict[str, Any], ins: Dic
     return a, b
 
 
+def same_bits(u: torch.Tensor, v: torch.Tensor) -> bool:
+    """Bitwise equal, NaN in the same positions counting as equal (torch.equal says NaN != NaN)."""
+    if u.shape != v.shape or u.dtype != v.dtype:
+        return False
+    if u.is_floating_point():
+        nu, nv = torch.isnan(u), torch.isnan(v)
+        return bool(torch.equal(nu, nv)) and bool(torch.equal(torch.where(nu, torch.zeros_like(u), u), torch.where(nv, torch.zeros_like(v), v)))
+    return bool(torch.equal(u, v))
+
+
 def eq(a, b) -> Optional[str]:
-    if a[0].shape != b[0].shape or not torch.equal(a[0], b[0]):
+    if a[0].shape != b[0].shape or not same_bits(a[0], b[0]):
         return "output"
-    if (a[1] is None) != (b[1] is None) or (a[1] is not None and not torch.equal(a[1], b[1])):
+    if (a[1] is None) != (b[1] is None) or (a[1] is not None and not same_bits(a[1], b[1])):
         return "input gradient"
     for k in a[2]:
         u, v = a[2][k], b[2][k]
-        if (u is None) != (v is None) or (u is not None and not torch.equal(u, v)):
+        if (u is None) != (v is None) or (u is not None and not same_bits(u, v)):
             return f"gradient of {k}"
     return None
 
